@@ -94,10 +94,9 @@ def r2(rr, repo):
     for b in binds:
         fn = enclosing_function(b)
         if fn is za.R_recv and parent(b) is za.R_recv:
-            v = b.value
-            ok = isinstance(v, ast.IfExp) and 'prev_id + 1' in U(v.body) and U(v.orelse).endswith('.msg_id') and 'is None' in U(v.test)
             k += 1
-            rr.ob('at entry the expected id is prev_id + 1 (or the id handed over by the coupled sender)', ok, za.mod, b, key='exp-entry')
+            from .c01 import entry_forms
+            entry_forms(rr, za, shared)   # prev_id + 1, or max(coupled sender's id, prev_id + 1): never below what was delivered / adopted
         elif fn is za.R_once and isinstance(b, ast.Assign) and b in slst:
             ok = U(b.value) == za.r_mid and slst.index(b) > slst.index(q.enclosing_stmt(sync))
             k += 1
